@@ -644,6 +644,13 @@ func init() {
 		return plain(w.h["container"], "put", atoms{}, containerBlob(o.ScriptHash(), 7000+w.seq), make([]byte, 64), chain.Pub(o), []byte{})
 	})
 	variant("container.put/5/nometa", "container.put/5/", setArg(4, false))
+	// the same container has already been registered (by the Alphabet, without the meta flag): a repeated put
+	again := func(w *world, fx *fixture) {
+		w.must(w.h["container"], w.alpha(), "put", fx.args[0], fx.args[1], fx.args[2], fx.args[3])
+	}
+	variant("container.put/4/again", "container.put/4/", again)
+	variant("container.put/5/again", "container.put/5/", again)
+	variant("container.putNamed/6/againnoname", "container.putNamed/6/noname", again)
 	variant("container.putNamed/6/noname", "container.putNamed/6/", setArg(4, ""))
 	variant("container.putNamed/6/zone", "container.putNamed/6/", setArg(5, "container"))
 	variant("container.delete/3/token", "container.delete/3/", setArg(2, []byte("session token")))
